@@ -27,9 +27,8 @@ NEG = [('replace_verbose_q', ['Inv_X03_Outcome']),
        ('mut_prepend_q', ['Inv_X03_SlotOrder', 'Inv_X03_Pairing']),
        ('impl_q', None)]
 # generator cfg -> how many scenarios of its exhaustive set are replayed (quick, thorough); None = all
-GEN = [('gen_pair', 3000, None), ('gen_pairsfx', 0, 30000), ('gen_name', 2500, None), ('gen_nameverbose', 200, None),
-       ('gen_lane', 1500, 30000), ('gen_lane4', 0, 30000), ('gen_merge', 800, None)]
-
+GEN = [('gen_pair', 2000, None), ('gen_pairsfx', 0, 12000), ('gen_name', 2000, 25000), ('gen_nameverbose', 200, None),
+       ('gen_lane', 1200, 12000), ('gen_lane4', 0, 12000), ('gen_merge', 800, None)]
 
 def key_fn(ev, clause):
     """the clause string is computed by TLC and already names the deviation it recognised; other clauses get the option shape"""
@@ -91,12 +90,11 @@ def _selftests(c, events):
     def returned(e):        # an inconsistent listing came back as if it were fine
         e['outcome'] = 'returned'
 
-    def truth(e):           # the abstract description says another lane than the name that went through detect()
-        f = [f for f in e['files'] if f['k'] in ('ill', 'filt')][0] if any(f['k'] in ('ill', 'filt') for f in e['files']) else e['files'][0]
-        f['lane'] += 1
+    def truth(e):           # the abstract description says another mate than the name that went through detect()
+        e['files'][e['slots'][0]['fs'][0] - 1]['mate'] = 3 - e['files'][e['slots'][0]['fs'][0] - 1]['mate']
     muts = [('swap_files_in_slot', e0, swap), ('corrupt_library_name', e0, libname), ('drop_file_from_slot', e0, dropfile),
             ('corrupt_mate_key', e0, mate), ('ignore_returns_half_lane', e1, half), ('inconsistent_returned', e2, returned),
-            ('corrupt_truth_lane', e0, truth)]
+            ('corrupt_truth_mate', e0, truth)]
     evs = []
     for k, (name, src, m) in enumerate(muts):
         e = copy.deepcopy(src)
@@ -178,7 +176,8 @@ def run(tier):
                       'glob mode: glob.glob of the module under test is wrapped to return its real matches in a chosen (directory) order',
                       'SRR names are SRR<digits>_<mate>; Illumina-style names whose library starts with "SRR" are outside the modelled schemes']
     accepted_tids = set(e['tid'] for e in events) - set(x['tid'] for x in r['rejects'])
-    _selftests(c, [e for e in events if e['tid'] in accepted_tids])
+    if not c.violations:     # with open violations the run exits 1 anyway; never turn that into a machinery failure
+        _selftests(c, [e for e in events if e['tid'] in accepted_tids])
     return c.finish(rule='TLC-enumerated listings (<= 4 files: every order, options replace/slib/merge/se/ignore/verbose, list and glob mode) '
                          '+ directed + random listings of up to ~100 files in 2-3 orders each, kwargs and args= calling conventions',
                     extra_cov={'distinct_nontrivial': len(set(json.dumps([e['files'], e['opts']], sort_keys=True) for e in events)),
